@@ -23,7 +23,9 @@ add A B DST | extend A B DST | append A VEC DST | tosparse A DST | todense A DST
 nnz NAME                                  -> ok N   (stored entries; dense: npix*nmodes)
 lstsq NAME VECTOR                         -> ok VECTOR | err rank
 mirror new NPIX NMODES ROWS | assign V | alias H | edit H I X | flatten | random V
-       | setif NPIX NMODES ROWS | read    -> ok … (read: ok VECTOR hit|miss)
+       | setif NPIX NMODES ROWS | read    -> ok … (read: ok VECTOR hit|miss; the K-th read, K = 0,1,…, hands out array K)
+       | sedit K I X                      -> ok      (in-place edit of handed-out surface array K)
+       | held K                           -> ok VECTOR (contents of handed-out surface array K)
 ```
 -/
 namespace HcipyVerif.Driver.C14
@@ -129,6 +131,23 @@ def mirrorStep (st : St) : List String → St × String
         let r := Mirror.read mir
         ({ st with mirror := some r.1 }, s!"ok {showVec r.2} {if hit then "hit" else "miss"}")
       | ["acts"] => (st, s!"ok {showVec (acts mir)}")
+      | ["sedit", k, i, x] =>
+        -- in-place edit of the array the K-th read of `dm.surface` returned
+        match parseNat? k, parseNat? i, parseC? x with
+        | some k, some i, some x =>
+          match mir.outs[k]? with
+          | some h =>
+            if i < (mir.sheap.getD h []).length then fin (.editSurface k i x) fun _ => "ok" else (st, "bad-op")
+          | none => (st, "bad-op")
+        | _, _, _ => (st, "bad-op")
+      | ["held", k] =>
+        -- what the caller sees in the array the K-th read returned
+        match parseNat? k with
+        | some k =>
+          match mir.outs[k]? with
+          | some h => (st, s!"ok {showVec (mir.sheap.getD h [])}")
+          | none => (st, "bad-op")
+        | none => (st, "bad-op")
       | _ => (st, "bad-op")
 
 def step (st : St) : List String → St × String
